@@ -7,7 +7,8 @@ import PvProofs.Lemmas.VownerLedger
 namespace PvProofs.VownerL
 open PvModel PvModel.Ledger PvModel.Vowner
 
-def AllHeld (l : Ledger) : Prop := ∀ d, ∃ o, HolderIs l d o
+/-- every SCOPE denom is well-formed; ordinary coins are unconstrained -/
+def AllHeld (l : Ledger) : Prop := ∀ d, isScopeDenom d = true → ∃ o, HolderIs l d o
 
 /-- everything but the ledger is unchanged -/
 structure Frame (s s' : State) : Prop where
@@ -92,7 +93,7 @@ theorem sendCoins_holder {s s' : State} {ag : List Addr} {a b : Addr} {ids : Lis
 /-! ### `SetScopeValueOwner` -/
 
 theorem setScopeValueOwner_spec {s s' : State} {ag : List Addr} {id : ScopeId} {new : Addr}
-    (hall : AllHeld s.ledger) (h : setScopeValueOwner s ag id new = .ok s') :
+    (hall : AllHeld s.ledger) (hsd : isScopeDenom id = true) (h : setScopeValueOwner s ag id new = .ok s') :
     Frame s s' ∧
     (∀ d, d ≠ id → ∀ o, HolderIs s.ledger d o → HolderIs s'.ledger d o) ∧
     (∀ o, HolderIs s.ledger id o → o ≠ some "" →
@@ -101,7 +102,7 @@ theorem setScopeValueOwner_spec {s s' : State} {ag : List Addr} {id : ScopeId} {
            withdrawOk s ag (o.getD modAddr) = true ∧
            depositOk s ag (o.getD modAddr) (if new = "" then modAddr else new) = true ∧
            (new ≠ "" → s.blocked.contains new = false))) := by
-  obtain ⟨o0, ho0⟩ := hall id
+  obtain ⟨o0, ho0⟩ := hall id hsd
   have hdo := denomOwner_of_holderIs ho0
   unfold setScopeValueOwner at h
   by_cases hb : new ≠ "" ∧ s.blocked.contains new = true
@@ -203,6 +204,29 @@ theorem setScopeValueOwner_spec {s s' : State} {ag : List Addr} {id : ScopeId} {
             intro o ho _
             have := holderIs_unique ho ho0; subst this
             refine ⟨by simpa [optAddr, hn] using h2, fun _ => ⟨hw, by simpa [hn] using hdp, hblk⟩⟩
+
+/-! ### `ValidateBasic`: metadata messages only name scope ids -/
+
+theorem validateWriteScope_scopeDenom {s : State} {id : ScopeId} {owners : List Party} {rollup : Bool} {vo : Addr}
+    {signers : List Addr} {r : Auth × List Addr}
+    (h : validateWriteScope s id owners rollup vo signers = .ok r) : isScopeDenom id = true := by
+  unfold validateWriteScope at h
+  split at h
+  · simp at h
+  · rename_i hvalid
+    cases hc : isScopeDenom id with
+    | true => rfl
+    | false => simp [hc] at hvalid
+
+theorem validateDeleteScope_scopeDenom {s : State} {id : ScopeId} {signers : List Addr} {r : Auth × List Addr}
+    (h : validateDeleteScope s id signers = .ok r) : isScopeDenom id = true := by
+  unfold validateDeleteScope at h
+  split at h
+  · simp at h
+  · rename_i hvalid
+    cases hc : isScopeDenom id with
+    | true => rfl
+    | false => simp [hc] at hvalid
 
 /-! ### authz -/
 
